@@ -500,11 +500,8 @@ def sig_of(kind, detail, case):
         if m:
             ln, have = int(m.group(1)), int(m.group(2))
             sig["rfc4884_unpadded"] = bool(have % unit != 0 and ln * unit == (have + unit - 1) // unit * unit)
-    st = stack_of(op)
-    if st:
-        sig["stack"] = st
-        for k in ("pppoe", "tcp", "ip6", "icmp", "icmp6"):
-            sig["has_" + k] = k in st.split("/")
+    if kind == "diff":
+        sig["stack"] = stack_of(op)
     return sig
 
 
@@ -576,11 +573,14 @@ def run(chk):
 
 
 MODELLED_NOT_PROVED = []
-MODELLED_KINDS = set()
+# layer kinds of Serialize.lean (the Lean model answers `unmodelled` for option lists whose size/write libtins computes
+# inconsistently — C02's findings — and those cases are then compared against the oracle only)
+MODELLED_KINDS = {"eth", "dot1q", "ip", "ip6", "tcp", "udp", "icmp", "icmp6", "raw", "pppoe", "mpls", "dot3", "snap",
+                  "loop", "sll", "ah", "esp"}
 
 
 def is_modelled(op):
-    return all(k in MODELLED_KINDS for k in stack_of(op).split("/")) and bool(MODELLED_KINDS)
+    return all(k in MODELLED_KINDS for k in stack_of(op).split("/"))
 
 
 def replay(path):
